@@ -77,6 +77,10 @@ def catalogue(tk):
         out.append(("invalid-switch-text", newvec("Switch", "DEV", vec, [one("Switch", e1, "Maybe")]), {}, False))
         out.append(("absent-switch-value", newvec("Switch", "DEV", vec, [one("Switch", e1, None)]), {}, False))
     if tk == "Number":
+        # syntactically valid numbers no property can hold or render: whatever is done with them, nothing may break
+        for huge in ("1e999", "-1e999", "1e308", "9" * 400, "1e-999"):
+            out.append(("number-out-of-range", newvec("Number", "DEV", vec, [one("Number", "A", huge)]), {(vec, "A"): "any"}, True))
+            out.append(("number-out-of-range-sexagesimal-format", newvec("Number", "DEV", vec, [one("Number", "S", huge)]), {(vec, "S"): "any"}, True))
         for bad in ("abc", "1:2:3:4", "--1", "1,5"):
             out.append((f"invalid-number-text", newvec("Number", "DEV", vec, [one("Number", e1, bad)]), {}, False))
     if tk == "BLOB":
@@ -219,6 +223,17 @@ def run_case(case):
             els = peer.elements(peer.new_output())
             if not any(e.tag == "defNumberVector" and e.get("name") == "NUM" for e in els):
                 raise Failure(f"next-request-not-answered:{transport}", f"{where}: getProperties sent right after elicited {[e.tag for e in els]}")
+        # the addressed property still works: a valid write to it is applied and published
+        tk = case.get("target")
+        if tk in ("Text", "Number", "Switch"):
+            vec, e1, e2 = TARGETS[tk]
+            good = {"Text": "still-works", "Number": "1:30:00", "Switch": "On"}[tk]
+            send(newvec(tk, "DEV", vec, [one(tk, e2, good)]))
+            inst_el = getattr(getattr(drv.g, {"TXT": "t", "NUM": "n", "SW": "s"}[vec]), {"A": "a", "B": "b", "S": "s"}[e2])
+            got = inst_el._value
+            ok = (got == "still-works") if tk == "Text" else (got is not None and abs(float(got) - 1.5) < 1e-9) if tk == "Number" else got == "On"
+            if not ok:
+                raise Failure(f"target-property-broken-afterwards:{tk}", f"{where}: a valid write to {vec}.{e2} sent afterwards left {got!r}")
         for step in VALID_STEPS[at:]:
             valid(step)
         # bystander still served
@@ -246,7 +261,7 @@ def check_block(case):
     counts = {}
     for entry, xml, allowed, accepts in catalogue(case["target"]):
         for at in range(len(VALID_STEPS) + 1):
-            sub = {"transport": case["transport"], "hostile": xml, "allowed": {"/".join(k): v for k, v in allowed.items()}, "accepts": accepts, "at": at, "entry": entry}
+            sub = {"transport": case["transport"], "hostile": xml, "allowed": {"/".join(k): v for k, v in allowed.items()}, "accepts": accepts, "at": at, "entry": entry, "target": case["target"]}
             try:
                 r = run_case(sub)
             except Failure as f:
@@ -276,7 +291,7 @@ def generated_hostile(draw):
         if k == "BLOB":
             children.append(one("BLOB", draw(el_st), draw(st.sampled_from([VALID["BLOB"], "@@", "QUJ", None, "QUJD QUJD"])), size=draw(st.sampled_from(["3", "0", "999", "x", "3.0"]))))
         else:
-            text = draw(st.sampled_from([VALID[k], "Off", "On", "1:30", "-0:30:00", "1e3", "x", None, "9" * 30]) | gen.stripped_text(3))
+            text = draw(st.sampled_from([VALID[k], "Off", "On", "1:30", "-0:30:00", "1e3", "x", None, "9" * 30, "1e999", "-1e400", "1e308", "9" * 400, "0.000000000000000000001", "1e-400"]) | gen.stripped_text(3))
             children.append(one(k, draw(el_st), text))
     xml = newvec(k, draw(name_st), draw(vec_st), children)
     return {"transport": draw(st.sampled_from(["tcp", "tty", "direct"])), "hostile": xml, "allowed": {"*": "*"}, "accepts": False, "at": draw(st.integers(0, 4))}
